@@ -10,15 +10,17 @@ struct BufRng {
 }
 #[cfg(not(kani))]
 impl rand::RngCore for BufRng {
+    // one byte of the stream per draw, like the byte-stream generator of the crate's own known-answer tests: rand samples
+    // a u8 (and each element of a [u8; N]) from next_u32
     fn next_u32(&mut self) -> u32 {
-        let mut b = [0u8; 4];
+        let mut b = [0u8; 1];
         self.fill_bytes(&mut b);
-        u32::from_le_bytes(b)
+        b[0] as u32
     }
     fn next_u64(&mut self) -> u64 {
-        let mut b = [0u8; 8];
+        let mut b = [0u8; 1];
         self.fill_bytes(&mut b);
-        u64::from_le_bytes(b)
+        b[0] as u64
     }
     fn fill_bytes(&mut self, dest: &mut [u8]) {
         for d in dest.iter_mut() {
